@@ -472,6 +472,9 @@ def py_trim(kind, s, chars=None):
     return z3.If(lead + trail >= n, z3.StringVal(''), z3.SubString(s, lead, n - lead - trail))
 
 
+MYSQL_TRIM = {k: z3.Function('mysql_' + k + '_substring', z3.StringSort(), z3.StringSort(), z3.StringSort()) for k in ('trim', 'ltrim', 'rtrim')}
+
+
 def INT2STR(t):
     """decimal rendering of an int (str() in Python, CAST AS text in SQL)"""
     return z3.If(t < 0, z3.Concat(z3.StringVal('-'), z3.IntToStr(-t)), z3.IntToStr(t))
@@ -577,6 +580,16 @@ def _func(e, env):
         if c.sort == 'null': return typed_null(c, 'str')
         if c.sort != 'str': raise Unmodelled('%s characters of sort %s' % (name, c.sort))
         return SV('str', py_trim(name, v.t, c.t), z3.Or(v.n, c.n))
+    if name in ('trim_str', 'ltrim_str', 'rtrim_str') and len(a) == 2:
+        # MySQL 12.8 TRIM([{BOTH | LEADING | TRAILING} [remstr] FROM] str): removes all remstr PREFIXES / SUFFIXES (the string, not a
+        # character set).  For a one-character remstr that is Python's strip(chars); for longer ones it is not (known region).
+        v, c = a
+        if v.sort == 'null': return v
+        if c.sort == 'null': return typed_null(c, 'str')
+        if v.sort != 'str' or c.sort != 'str': raise Unmodelled('%s of %s, %s' % (name, v.sort, c.sort))
+        if dialect != 'MySQL': raise Unmodelled('TRIM(... FROM ...) semantics of %s' % dialect)
+        kind = name[:-4]
+        return SV('str', z3.If(z3.Length(c.t) == 1, py_trim(kind, v.t, c.t), z3.If(z3.Length(c.t) == 0, v.t, MYSQL_TRIM[kind](v.t, c.t))), z3.Or(v.n, c.n))
     if name in ('power', 'pow') and len(a) == 2:
         x, y = a
         if x.sort == 'bool': x = to_int(x)
@@ -585,6 +598,8 @@ def _func(e, env):
         t = z3.IntVal(1)
         for _ in range(y.t.as_long()): t = t * x.t
         return SV('int', t, x.n)
+    if name == 'to_char' and len(a) == 1 and a[0].sort in ('int', 'str', 'null'):
+        return a[0] if a[0].sort != 'int' else SV('str', INT2STR(a[0].t), a[0].n)
     if name == 'int_to_str' and len(a) == 1:
         return SV('str', INT2STR(a[0].t), a[0].n)
     raise Unmodelled('function %s/%d' % (name, len(a)))
